@@ -1,6 +1,8 @@
 package main
 
 import (
+	"crypto/sha1"
+	"fmt"
 	"go/types"
 	"strings"
 
@@ -131,22 +133,20 @@ func (e *Engine) model(st *State, g *G, fr *Frame, f *ssa.Function, args []Value
 			return sl, true, ""
 		case 16:
 			arr := st.arrOf(sl)[sl.off : sl.off+16]
-			is4 := true
+			is4 := B(true)
 			for i := 0; i < 12; i++ {
 				t, ok := arr[i].(*Term)
-				if !ok || !t.IsConst() {
-					return nil, true, "net.IP.To4 on symbolic bytes"
+				if !ok {
+					return nil, true, "net.IP.To4 on opaque bytes"
 				}
 				want := uint64(0)
 				if i >= 10 {
 					want = 0xff
 				}
-				if t.Val != want {
-					is4 = false
-				}
+				is4 = And(is4, Cmp("=", t, C(want, 8)))
 			}
-			if is4 {
-				return SliceV{arr: sl.arr, off: sl.off + 12, n: 4, cap: 4}, true, ""
+			if e.decide(st, is4) {
+				return SliceV{arr: sl.arr, off: sl.off + 12, n: 4, cap: 4, apath: sl.apath}, true, ""
 			}
 		}
 		return SliceV{isNil: true}, true, ""
@@ -531,4 +531,49 @@ func (e *Engine) logEv(st *State, p Ptr, kind string) {
 		return
 	}
 	st.events = append(st.events, kind+" "+lockKey(p))
+}
+
+// decide resolves a symbolic condition inside a model: constants directly, otherwise through the
+// fork-and-re-execute protocol (pendingEq): the first call records the condition and returns false; the call
+// instruction is then re-executed in both successor states with the decision memoised.
+func (e *Engine) decide(st *State, c *Term) bool {
+	if c.IsConst() {
+		return c.True()
+	}
+	key := "d" + structKey(c)
+	if d, ok := st.decided[key]; ok {
+		return d
+	}
+	if e.pendingEq == nil {
+		e.pendingEq = c
+		e.pendingKey = key
+	}
+	return false
+}
+
+// structKey is a structural fingerprint of a term (stable across re-execution, unlike term ids).
+func structKey(t *Term) string {
+	memo := map[int]string{}
+	var rec func(t *Term) string
+	rec = func(t *Term) string {
+		switch t.Op {
+		case "const", "bconst":
+			return fmt.Sprintf("c%d:%d", t.Val, t.W)
+		case "var":
+			return t.Name
+		}
+		if k, ok := memo[t.id]; ok {
+			return k
+		}
+		h := sha1.New()
+		fmt.Fprintf(h, "%s/%d/%d(", t.Op, t.W, t.Val)
+		for _, a := range t.Args {
+			h.Write([]byte(rec(a)))
+			h.Write([]byte{','})
+		}
+		k := fmt.Sprintf("%x", h.Sum(nil)[:10])
+		memo[t.id] = k
+		return k
+	}
+	return rec(t)
 }
